@@ -29,6 +29,17 @@ Section RulesA.
     exists a'. split; [eapply InvA_step; eauto|]. split; auto. now rewrite V.
   Qed.
 
+  Lemma dsafe_emit_J' {R} t es (k : @dprog G ev R) l Q :
+    nodisp es ->
+    (forall g a tr, viewA a t = l -> exists a', Conc.frame viewA t a a' /\
+        (flbad (hist (tr ++ Conc.tag t es)) = false -> JA c g a (hist tr) -> JA c g a' (hist (tr ++ Conc.tag t es))) /\
+        dsafeA t k (viewA a' t) Q) ->
+    dsafeA t (DEmit es k) l Q.
+  Proof.
+    intros Hn Hs. cbn [dsafe]. intros g a tr Hi Hv. destruct (Hs g a tr Hv) as (a' & F & Hj & Hk).
+    exists a'. split; [eapply InvA_step; eauto|]. split; auto.
+  Qed.
+
   Lemma dsafe_act_J {X R} t (f : A X) (k : X -> @dprog G ev R) l Q :
     (forall g, nodisp (snd (f g))) ->
     (forall g a tr, viewA a t = l -> exists a', Conc.frame viewA t a a' /\
